@@ -3,7 +3,7 @@
 //! (routing), C10 (one replier), and — restricted to healthy peers — C08, C11, C16.
 
 use crate::harness::*;
-use crate::pubsub::{common_c09, mask, outcome_hash, panics_file, RunOut};
+use crate::pubsub::{common_c09, copy_c09_to_owner, mask, outcome_hash, panics_file, RunOut};
 use crate::world::*;
 use bytes::Bytes;
 use futures::channel::mpsc::Sender;
@@ -239,6 +239,7 @@ pub fn run(scn: &ReqRep, ch: &mut Chooser, want_trace: bool) -> RunOut {
     let mut g = lock(&w);
     let abandoned = out.spun || out.livelock || out.panicked.is_some();
     common_c09(&out, &g, "reqrep", &mut viol);
+    copy_c09_to_owner(scn.owner, &mut viol);
     if let Some((m, l)) = &out.panicked {
         viol.push(RViol { prop: scn.owner, clause: format!("reqrep:panic:{}:{}", panics_file(l), mask(m)), msg: format!("router panicked: {m} at {l}") });
     }
@@ -297,6 +298,8 @@ fn oracle(scn: &ReqRep, g: &World, out: &Outcome, ids: &Ids, viol: &mut Vec<RVio
 
     // ---- replier life cycles
     struct Rep {
+        /// when the router was handed the end of the stream (None yielded)
+        saw_end: Option<u64>,
         /// when the environment ended the replier (departure / failure / end yielded)
         env_end: Option<u64>,
         sent: Option<u64>,
@@ -311,7 +314,7 @@ fn oracle(scn: &ReqRep, g: &World, out: &Outcome, ids: &Ids, viol: &mut Vec<RVio
         let (si, st) = match (ids.r_sink[k], ids.r_stream[k]) {
             (Some(a), Some(b)) => (a, b),
             _ => {
-                reps.push(Rep { env_end: None, sent: None, bound: None, end: None, rejected: false, healthy: true, seen: None });
+                reps.push(Rep { saw_end: None, env_end: None, sent: None, bound: None, end: None, rejected: false, healthy: true, seen: None });
                 continue;
             }
         };
@@ -336,7 +339,7 @@ fn oracle(scn: &ReqRep, g: &World, out: &Outcome, ids: &Ids, viol: &mut Vec<RVio
             (a, b, c) => [a, b, c].into_iter().flatten().min(),
         };
         let env_end = [t.depart_clock, t.end_clock, s.failed].into_iter().flatten().min();
-        reps.push(Rep { env_end, sent: t.sent_at, bound, end: if rejected { None } else { end }, rejected, healthy: s.failed.is_none(), seen });
+        reps.push(Rep { saw_end: t.end_clock, env_end, sent: t.sent_at, bound, end: if rejected { None } else { end }, rejected, healthy: s.failed.is_none(), seen });
     }
 
     // two repliers bound at once
@@ -381,6 +384,8 @@ fn oracle(scn: &ReqRep, g: &World, out: &Outcome, ids: &Ids, viol: &mut Vec<RVio
                     && !reps[o].rejected
                     && reps[o].sent.unwrap_or(u64::MAX) < sent_k
                     && reps[o].env_end.map_or(true, |e| !g.polls.iter().any(|(ps, pe, blocked)| *ps > e && *pe < sent_k && !*blocked))
+                    // ... or it actually saw the stream end in a poll completed before this registration
+                    && reps[o].saw_end.map_or(true, |t| !g.polls.iter().any(|(ps, pe, _)| *ps < t && t < *pe && *pe < sent_k))
             });
             if !legit {
                 viol.push(RViol { prop: p10, clause: "reqrep:rejected-without-bound-replier".into(), msg: format!("R{k} was rejected although no other replier was bound between its registration and its rejection") });
@@ -616,6 +621,30 @@ fn oracle(scn: &ReqRep, g: &World, out: &Outcome, ids: &Ids, viol: &mut Vec<RVio
         }
     }
 
+    if out.done.is_none() {
+        for j in 0..nq {
+            if let Some(st) = ids.q_stream[j] {
+                let t = &g.streams[st];
+                if t.first_touch.is_some() && in_run(t.dropped_at).is_none() && !t.ended && !t.blocked && !t.depart && t.next < t.script.len() {
+                    viol.push(RViol { prop: p02, clause: "reqrep:requestor-not-drained".into(), msg: format!("requestor {j} still offers {} which the router never took although nothing is blocked", frame_brief(&t.script[t.next])) });
+                }
+            }
+        }
+    }
+    // at completion everything already handed to a healthy peer has been flushed
+    if let Some(_d) = out.done {
+        for s in g.sinks.iter() {
+            if s.failed.is_none() && s.first_touch.is_some() && s.flushed_at_quiescence < s.accepted_at_quiescence {
+                viol.push(RViol { prop: "C16", clause: "reqrep:finished-with-unflushed-data".into(), msg: format!("the router finished with {} of {} frames handed to {} not flushed", s.accepted_at_quiescence - s.flushed_at_quiescence, s.accepted_at_quiescence, s.label) });
+                break;
+            }
+        }
+    }
+    // in the multi-replier families the routing clauses also speak for "the bound replier's traffic is unaffected"
+    if own == "C10" {
+        let copies: Vec<RViol> = viol.iter().filter(|v| v.prop == "C02").map(|v| RViol { prop: "C10", clause: format!("traffic-affected:{}", v.clause), msg: v.msg.clone() }).collect();
+        viol.extend(copies);
+    }
     if scn.close && out.closed_at.is_some() && out.done.is_none() {
         viol.push(RViol { prop: "C16", clause: "reqrep:shutdown-hang".into(), msg: "registration channel closed and every sink able to accept data, but the router never finished".into() });
     }
